@@ -203,48 +203,81 @@ func runC09(c *Ctx) {
 			}
 			c.R.Check("G-clamp", "CalcNextRequiredDifficulty|new = old target * multiplier", okMul, c.posOf(e), "the product is CompactToBig(prevNode.Bits) * big.NewInt(adjusted timespan)")
 			if multiplier != nil {
-				phi, isPhi := multiplier.(*ssa.Phi)
-				okClamp := isPhi
-				if isPhi {
-					minF, maxF := fieldIs("BlockChain", "minRetargetTimespan"), fieldIs("BlockChain", "maxRetargetTimespan")
-					var raw ssa.Value
-					hasMin, hasMax := false, false
-					for _, ed := range phi.Edges {
+				minF, maxF := fieldIs("BlockChain", "minRetargetTimespan"), fieldIs("BlockChain", "maxRetargetTimespan")
+				isRaw := func(v ssa.Value) bool {
+					return !minF(v) && !maxF(v) && ssau.DependsOn(v, func(y ssa.Value) bool { return ssau.IsFieldOf(y, "BlockNode", "Timestamp") })
+				}
+				// the sources the multiplier may come from, each with a test "is this source reachable under a cut"
+				type source struct {
+					val   ssa.Value
+					reach func(cut *ssau.Cut) bool
+				}
+				clampOK := func(g *ssa.Function, srcs []source) bool {
+					hasMin, hasMax, hasRaw := false, false, false
+					for _, sc := range srcs {
 						switch {
-						case minF(ed):
+						case minF(sc.val):
 							hasMin = true
-						case maxF(ed):
+						case maxF(sc.val):
 							hasMax = true
+						case isRaw(sc.val):
+							hasRaw = true
 						default:
-							raw = ed
+							return false
 						}
 					}
-					okClamp = hasMin && hasMax && raw != nil
-					if okClamp {
-						// the raw edge is taken only with min <= raw <= max: each guard alone must already cut it off
-						for _, g := range []struct {
-							bound func(ssa.Value) bool
-							op    token.Token
-						}{{minF, token.GEQ}, {maxF, token.LEQ}} {
-							one := ssau.NewCut()
-							k := 0
-							for _, i := range ssau.Ifs(f) {
-								if m, arm := condCmp(func(v ssa.Value) bool { return v == raw }, g.bound, g.op, true)(i); m {
-									one.AddEdge(i.Block(), ssau.Arm(i, arm))
-									k++
-								}
-							}
-							if k == 0 {
-								okClamp = false
-								continue
-							}
-							r1 := ssau.ReachFromEntry(f, one)
-							for kk, ed := range phi.Edges {
-								if ed == raw && r1.EdgeReachable(phi.Block().Preds[kk], phi.Block()) {
-									okClamp = false
-								}
+					if !hasMin || !hasMax || !hasRaw {
+						return false
+					}
+					for _, gd := range []struct {
+						bound func(ssa.Value) bool
+						op    token.Token
+					}{{minF, token.GEQ}, {maxF, token.LEQ}} {
+						one := ssau.NewCut()
+						k := 0
+						for _, i := range ssau.Ifs(g) {
+							if m, arm := condCmp(isRaw, gd.bound, gd.op, true)(i); m {
+								one.AddEdge(i.Block(), ssau.Arm(i, arm))
+								k++
 							}
 						}
+						if k == 0 {
+							return false
+						}
+						for _, sc := range srcs {
+							if isRaw(sc.val) && sc.reach(one) {
+								return false
+							}
+						}
+					}
+					return true
+				}
+				okClamp := false
+				switch m := multiplier.(type) {
+				case *ssa.Phi:
+					var srcs []source
+					for kk, ed := range m.Edges {
+						kk := kk
+						srcs = append(srcs, source{ed, func(cut *ssau.Cut) bool {
+							return ssau.ReachFromEntry(f, cut).EdgeReachable(m.Block().Preds[kk], m.Block())
+						}})
+					}
+					okClamp = clampOK(f, srcs)
+				case *ssa.Call:
+					// the clamp was extracted into a helper: judge its returns with the parameters standing for the arguments
+					if h := m.Call.StaticCallee(); h != nil && h.Pkg == f.Pkg && len(h.Blocks) > 0 {
+						ssau.WithParamSubst(m, func() {
+							var srcs []source
+							for _, ret := range ssau.Returns(h) {
+								ret := ret
+								var leaves []ssa.Value
+								phiLeaves(ret.Results[0], map[ssa.Value]bool{}, &leaves)
+								for _, l := range leaves {
+									srcs = append(srcs, source{l, func(cut *ssau.Cut) bool { return ssau.ReachFromEntry(h, cut).Instr(ret) }})
+								}
+							}
+							okClamp = clampOK(h, srcs)
+						})
 					}
 				}
 				c.R.Check("G-clamp", "CalcNextRequiredDifficulty|multiplier clamped to [min,max] timespan", okClamp, c.posOf(e), "the multiplier is min, max or the raw timespan, the latter only when min <= raw <= max")
